@@ -23,21 +23,21 @@ def run(tier, seed):
         tc.model_check(rep, "MC_FimTopology seed=" + sd, tc.consts(2 if quick else 4, sd, "full"))
     scripts = []
     for sd in ("svc", "rich"):
-        scripts += tc.generate(rep, "Gen_FimTopology seed=%s (removal transitions)" % sd, tc.consts(3 if quick else 4, sd, "full"),
+        scripts += tc.generate(rep, "Gen_FimTopology seed=%s (removal transitions)" % sd, tc.consts(3 if quick or sd == "rich" else 4, sd, "full"),
                                keep=lambda p: p["op"]["op"] in REMOVALS or p["op"]["op"] in HANDLE_OPS or p["op"]["op"] == "Views",
-                               workers=8 if quick else 1)
+                               workers=8)
     scripts += tc.generate(rep, "Gen_FimTopology seed=twin (removal transitions)", tc.consts(2 if quick else 3, "twin", "full"),
                            keep=lambda p: p["op"]["op"] in REMOVALS or p["op"]["op"] in HANDLE_OPS or p["op"]["op"] == "Views",
-                           workers=8 if quick else 1)
+                           workers=8)
     tc.run_and_validate(rep, scripts, "every applicable removal/disconnect in every reachable topology of the bound", only_ops=mine)
     # substrate models: two-ended direct links between node ports, node-level services
     sscripts = tc.generate(rep, "Gen_FimTopology substrate seed=sub (removal transitions)", tc.consts(3 if quick else 4, "sub", "full", "substrate"),
                            keep=lambda p: p["op"]["op"] in REMOVALS or p["op"]["op"] in HANDLE_OPS or p["op"]["op"] == "Views",
-                           workers=8 if quick else 1)
+                           workers=8)
     tc.run_and_validate(rep, sscripts, "every applicable removal in every reachable substrate model of the bound",
                         flavour="substrate", only_ops=mine)
     rng = random.Random(seed)
     gen = tc.RandomTopoOps(rng, invalid_prob=0.05)
-    rs = [gen.script(50) for _ in range(150 if quick else 3000)]
+    rs = [gen.script(50) for _ in range(150 if quick else 1500)]
     tc.run_and_validate(rep, rs, "random walks (build, connect, peer, sub-interfaces, then remove)", only_ops=mine)
     return rep
